@@ -339,9 +339,20 @@ func harnessC02b() {
 		VersionedPlugins: map[int]PluginSet{p1: plugA, p2: plugB},
 		Logger:           vLogger{},
 	}
+	plugVers := []int{p1, p2}
+	variant := vChoice(3) // 0 plain; 1 the plugin also has the legacy pair; 2 the host inherited a version list
+	if variant == 1 {
+		// the plugin ALSO has the legacy pair ProtocolVersion+Plugins: one more version it serves
+		vCover("plugin-legacy-pair-and-versioned")
+		p3 := vNondetInt("p3")
+		vAssume(p3 >= 0 && p3 != p1 && p3 != p2)
+		serve.HandshakeConfig.ProtocolVersion = uint(p3)
+		serve.Plugins = PluginSet{"c": &vPlugNet{}}
+		plugVers = append(plugVers, p3)
+	}
 	p := &vProc{mode: 0, dead: make(chan struct{})}
 	skipHostEnv := true
-	if vChoice(2) == 1 {
+	if variant == 2 {
 		// the host is itself a plugin (nested plugins): it inherited a version list from its own launch, which has
 		// nothing to do with what this client offers
 		vCover("inherited-version-list")
@@ -370,7 +381,7 @@ func harnessC02b() {
 
 	common, best := false, 0
 	for _, h := range []int{h1, h2} {
-		for _, q := range []int{p1, p2} {
+		for _, q := range plugVers {
 			if h == q && (!common || h > best) {
 				common, best = true, h
 			}
